@@ -469,3 +469,83 @@ def c20_r7(ctx):
     d_ok = DD.has(dds, "base = 0") and two_step(DD, dds, "base += n", "yield base")
     ctx.ob("util.numlists.delta_encode <-> delta_decode", e_ok and d_ok,
            "encode yields n - base then base = n; decode adds to base and yields it", loc=de.loc)
+
+
+TYPECODE_GETTER = {"B": "get_byte", "H": "get_ushort", "i": "get_int", "I": "get_uint", "q": "get_long"}
+
+
+@rule("C20", "R8", "K4", "the ordered-hash index array is read with the getter of the typecode it was written with",
+      min_instances=1, also=("C10",),
+      clause="OrderedHashReader._read_extras binds self._get_pos, for each index typecode the writer can record (B, H, i, I, q), to "
+             "the StructFile getter of exactly that type -- signedness included (I is unsigned 32 bit, i signed); the table is computed "
+             "case by case from the code, whatever its shape (if-chain, dict keyed by typecode, dict keyed by item size).")
+def c20_r8(ctx):
+    from .. import cases
+    prog = ctx.prog
+    f = prog.method("filedb.filetables.OrderedHashReader", "_read_extras", inherited=False)
+    ctx.saw(f)
+
+    def absval(e, env, ev):
+        t = cases.path_text(e, env)
+        if t == 'self.extras["indextype"]' or t == "self.extras['indextype']":
+            return ("tc", env["<tc>"])
+        ok, v = cases.const_of(e)
+        if ok:
+            return ("const", v)
+        if isinstance(e, ast.Attribute) and e.attr.startswith("get_"):
+            return ("getter", e.attr)
+        if isinstance(e, ast.Call) and norm.canon(e.func) in ("struct.calcsize", "calcsize") and len(e.args) == 1:
+            a = ev.value(e.args[0], env)
+            if a[0] in ("tc", "const") and isinstance(a[1], str):
+                return ("const", struct.calcsize(a[1]))
+        if isinstance(e, ast.Dict) and all(k is not None for k in e.keys):
+            items = []
+            for k, v in zip(e.keys, e.values):
+                items.append((ev.value(k, env), ev.value(v, env)))
+            return ("dict", tuple(items))
+        if isinstance(e, ast.Subscript):
+            d = ev.value(e.value, env)
+            k = ev.value(e.slice, env)
+            if d[0] == "dict" and k[0] in ("tc", "const"):
+                for kk, vv in d[1]:
+                    if kk[0] in ("tc", "const") and kk[1] == k[1]:
+                        return vv
+                return ("raise",)
+        if isinstance(e, ast.Call) and isinstance(e.func, ast.Attribute) and e.func.attr == "get" and e.args:
+            d = ev.value(e.func.value, env)
+            k = ev.value(e.args[0], env)
+            if d[0] == "dict" and k[0] in ("tc", "const"):
+                for kk, vv in d[1]:
+                    if kk[0] in ("tc", "const") and kk[1] == k[1]:
+                        return vv
+                return ev.value(e.args[1], env) if len(e.args) > 1 else ("const", None)
+        if cases.is_plain_path(e):
+            return ("path", t)
+        return cases.OPAQUE(norm.canon(e))
+
+    def decide(t, env, ev):
+        if isinstance(t, ast.Compare) and len(t.ops) == 1 and isinstance(t.ops[0], (ast.Eq, ast.NotEq, ast.In, ast.NotIn)):
+            l, r = ev.value(t.left, env), ev.value(t.comparators[0], env)
+            if isinstance(t.ops[0], (ast.In, ast.NotIn)):
+                if l[0] in ("tc", "const") and isinstance(t.comparators[0], (ast.Tuple, ast.List, ast.Set)):
+                    vals = [ev.value(x, env) for x in t.comparators[0].elts]
+                    if all(v[0] in ("tc", "const") for v in vals):
+                        res = l[1] in [v[1] for v in vals]
+                        return res if isinstance(t.ops[0], ast.In) else not res
+                return None
+            if l[0] in ("tc", "const") and r[0] in ("tc", "const"):
+                return (l[1] == r[1]) if isinstance(t.ops[0], ast.Eq) else (l[1] != r[1])
+        return None
+    table = {}
+    for tc in sorted(TYPECODE_GETTER):
+        env, _ = cases.CaseEval(f.node, absval, decide).run({"<tc>": tc})
+        table[tc] = (env or {}).get("self._get_pos", cases.UNKNOWN)
+    want = dict((tc, ("getter", g)) for tc, g in TYPECODE_GETTER.items())
+    ctx.ob(f, table == want, "typecode -> getter: B get_byte, H get_ushort, i get_int, I get_uint, q get_long",
+           detail="computed table: %s" % dict((k, v[-1]) for k, v in table.items()))
+    # the writer records the array's own typecode
+    w = prog.method("filedb.filetables.OrderedHashWriter", "_write_extras", inherited=False)
+    ctx.saw(w)
+    ok = any(isinstance(st, ast.Assign) and norm.canon(st.targets[0]) in ('self.extras["indextype"]', "self.extras['indextype']")
+             and norm.deep_canon(st.value, w.node).endswith(".typecode") for st in ast.walk(w.node))
+    ctx.ob(w, ok, "the writer records the index array's own typecode")
